@@ -366,6 +366,42 @@ var c18Failing = []struct {
 		var out []interface{}
 		return e.c.Where().List(ctx, &out)
 	}},
+	{"setoption:while-connected", func(e *c18Env) error {
+		// "It may only be called when the client is not connected": refused, nothing changes
+		return e.c.SetOption(client.WithReconnect(500*time.Millisecond, backoff.NewConstantBackOff(5*time.Millisecond)))
+	}},
+	{"setoption:option-refused-while-disconnected", func(e *c18Env) error {
+		e.c.Disconnect()
+		for i := 0; i < 2000 && e.c.Connected(); i++ {
+			time.Sleep(time.Millisecond)
+		}
+		var err error
+		for i := 0; i < 200; i++ {
+			// an endpoint that is not a URL: the option itself reports the error
+			if err = e.c.SetOption(client.WithEndpoint("%zz")); err == nil || !strings.Contains(err.Error(), "connected") {
+				break
+			}
+			time.Sleep(time.Millisecond)
+		}
+		return err
+	}},
+	{"setoption:accepted-while-disconnected", func(e *c18Env) error {
+		e.c.Disconnect()
+		for i := 0; i < 2000 && e.c.Connected(); i++ {
+			time.Sleep(time.Millisecond)
+		}
+		var err error
+		for i := 0; i < 200; i++ {
+			if err = e.c.SetOption(client.WithInactivityCheck(3*time.Second, 2*time.Second, backoff.NewConstantBackOff(5*time.Millisecond))); err == nil {
+				break
+			}
+			time.Sleep(time.Millisecond)
+		}
+		if err != nil {
+			return err
+		}
+		return fmt.Errorf("(no error expected)")
+	}},
 	{"create:foreign-model", func(e *c18Env) error {
 		type stranger struct {
 			UUID string `ovsdb:"_uuid"`
@@ -399,6 +435,23 @@ var c18FollowUps = []struct {
 		defer cancel()
 		var err error
 		for i := 0; i < 200; i++ {
+			if err = e.c.Connect(ctx); err == nil && e.c.Connected() {
+				return nil
+			}
+			time.Sleep(time.Millisecond)
+		}
+		return fmt.Errorf("could not connect again: %v", err)
+	}},
+	{"disconnect+setoption+connect", func(e *c18Env) error {
+		// SetOption is refused while connected and accepted afterwards; whichever happens, the
+		// calls return and the client connects again
+		_ = e.c.SetOption(client.WithLeaderOnly(false))
+		e.c.Disconnect()
+		ctx, cancel := context.WithTimeout(context.Background(), 5*time.Second)
+		defer cancel()
+		var err error
+		for i := 0; i < 200; i++ {
+			_ = e.c.SetOption(client.WithLeaderOnly(false))
 			if err = e.c.Connect(ctx); err == nil && e.c.Connected() {
 				return nil
 			}
